@@ -258,11 +258,30 @@ def r5(ctx):
     I = Interp(ctx.index, Config(loop_unroll=2))
 
     def body(run):
-        fb = new_obj(run, "_abnf:frame_buffer", "fb", recv=Sym("recv_fn", "func"), recv_buffer=new_list(run, [Sym("held", "bytes")]))
+        # two chunks are already buffered (an earlier call was interrupted after two transport reads)
+        fb = new_obj(run, "_abnf:frame_buffer", "fb", recv=Sym("recv_fn", "func"), recv_buffer=new_list(run, [Sym("held", "bytes"), Sym("held2", "bytes")]))
         n = isym(run, "n", 0, LEN_MAX)
         return I.call(run, I.getattr(run, fb, "recv_strict", None), [n], {}, None)
 
     I.cfg.stubs["recv_fn"] = recv_stub
+
+    def lin(t):
+        """linear normal form of an integer term: ({atom key: coefficient}, constant) or None"""
+        t = t if not isinstance(t, C) else t
+        if isinstance(t, C) and isinstance(t.v, int):
+            return {}, t.v
+        if isinstance(t, App) and t.op in ("+", "-") and len(t.args) == 2:
+            a, b = lin(t.args[0]), lin(t.args[1])
+            if a is None or b is None:
+                return None
+            sgn = 1 if t.op == "+" else -1
+            m = dict(a[0])
+            for k_, c_ in b[0].items():
+                m[k_] = m.get(k_, 0) + sgn * c_
+            return {k_: c_ for k_, c_ in m.items() if c_}, a[1] + sgn * b[1]
+        if isinstance(t, (Sym, App)):
+            return {t.key(): 1}, 0
+        return None
     outs = ctx.count_paths(I.explore(body))
     n = Sym("n", "int")
     nret = 0
@@ -273,9 +292,14 @@ def r5(ctx):
             if e.name != "transport.recv":
                 continue
             a = e.args[0]
-            # request is min(K, shortage) or shortage: never more than what is missing
+            # request is min(K, shortage) or shortage, where shortage = n - everything buffered so far (both held chunks
+            # and every chunk received in this call): never more than what is missing
+            got_so_far = [Sym("held", "bytes"), Sym("held2", "bytes")] + [x.ret for x in o.effects[:o.effects.index(e)] if x.name == "transport.recv"]
+            want = ({Sym("n", "int").key(): 1, **{App("len", (c_,), "int").key(): -1 for c_ in got_so_far}}, 0)
+
             def is_shortage(t):
-                return isinstance(t, App) and t.op == "-" and "<n>" in repr(t)
+                l_ = lin(I.resolve(o.run, t)) if isinstance(t, Value) else None
+                return l_ is not None and l_ == want
             okr = (isinstance(a, App) and a.op == "min" and any(isinstance(x, C) for x in a.args) and any(is_shortage(x) for x in a.args)) or is_shortage(a)
             if not okr and isinstance(a, C) and isinstance(a.v, int):
                 # an explicit clamp: a constant is requested on a path where the bytes missing are known to be at least that many
@@ -290,7 +314,7 @@ def r5(ctx):
         nret += 1
         chunks = [e.ret for e in o.effects if e.name == "transport.recv"]
         from ..values import concat
-        unified = concat([Sym("held", "bytes")] + chunks, "bytes")
+        unified = concat([Sym("held", "bytes"), Sym("held2", "bytes")] + chunks, "bytes")
         v = o.value
         fbobj = None
         for addr, cell in o.run.heap.items():
